@@ -332,6 +332,9 @@ type vbAct struct {
 	Batch []int  `json:"batch"`
 	K     int    `json:"k"`
 	Res   string `json:"res"`
+	// NF = 1: NewPeer of a peer that does not advertise SFNodeNetwork (not a
+	// sync candidate); absent in older replay files = 0 = full node.
+	NF int `json:"nf"`
 }
 
 type vbStoreObs struct {
@@ -401,6 +404,45 @@ type vbFaultStore struct {
 	armed       bool
 	sawRollback bool
 	crash       *vbCrashPlan
+	rb          *vbRollbackFault
+}
+
+// vbRollbackFault makes the k-th RollbackLastBlock call of the current headers
+// message on the block-header store (failB) or on the filter-header store
+// (failF) return an I/O error without touching the store; 0 = none. nB / nF
+// count the calls of this message, fired says the error was delivered.
+type vbRollbackFault struct {
+	failB, failF int
+	nB, nF       int
+	fired        bool
+}
+
+func (f *vbRollbackFault) arm(failB, failF int) {
+	*f = vbRollbackFault{failB: failB, failF: failF}
+}
+
+func (f *vbRollbackFault) blockCall() error {
+	if f == nil {
+		return nil
+	}
+	f.nB++
+	if f.failB != 0 && f.nB == f.failB {
+		f.fired = true
+		return fmt.Errorf("verif: injected failure of block-store rollback call %d", f.nB)
+	}
+	return nil
+}
+
+func (f *vbRollbackFault) filterCall() error {
+	if f == nil {
+		return nil
+	}
+	f.nF++
+	if f.failF != 0 && f.nF == f.failF {
+		f.fired = true
+		return fmt.Errorf("verif: injected failure of filter-store rollback call %d", f.nF)
+	}
+	return nil
 }
 
 // vbCrashPlan kills the process (panic, recovered by the driver, the block
@@ -429,6 +471,7 @@ func (c *vbCrashPlan) mutation() {
 type vbFaultFStore struct {
 	headerfs.FilterHeaderStore
 	crash *vbCrashPlan
+	rb    *vbRollbackFault
 }
 
 func (s *vbFaultFStore) WriteHeaders(hdrs ...headerfs.FilterHeader) error {
@@ -439,6 +482,9 @@ func (s *vbFaultFStore) WriteHeaders(hdrs ...headerfs.FilterHeader) error {
 }
 
 func (s *vbFaultFStore) RollbackLastBlock(newTip *chainhash.Hash) (*headerfs.BlockStamp, error) {
+	if err := s.rb.filterCall(); err != nil {
+		return nil, err
+	}
 	s.crash.mutation()
 	return s.FilterHeaderStore.RollbackLastBlock(newTip)
 }
@@ -449,6 +495,9 @@ func (s *vbFaultStore) RollbackBlockHeaders(n uint32) (*headerfs.BlockStamp, err
 }
 
 func (s *vbFaultStore) RollbackLastBlock() (*headerfs.BlockStamp, error) {
+	if err := s.rb.blockCall(); err != nil {
+		return nil, err
+	}
 	s.crash.mutation()
 	s.sawRollback = true
 	return s.BlockHeaderStore.RollbackLastBlock()
@@ -491,10 +540,15 @@ type vbEnv struct {
 	fst   *vbFaultStore
 	ffst  *vbFaultFStore
 	crash *vbCrashPlan
+	rb    *vbRollbackFault
 	fs    headerfs.FilterHeaderStore
 	bm    *blockManager
 	cands *list.List
 	peers []*ServerPeer
+	// gone[i]: the peer objects that were connected as peer i+1 of this manager
+	// and have left (DonePeer): a sync peer that is one of them is reported as
+	// 100+i+1, so that it can never be mistaken for the peer now in that slot
+	gone [][]*ServerPeer
 	fhCache map[int]chainhash.Hash // true chained filter header per block id
 	fhID    map[chainhash.Hash]int
 	hmax    int
@@ -560,8 +614,9 @@ func (e *vbEnv) reopenStores() error {
 
 func (e *vbEnv) startManager() error {
 	e.crash = &vbCrashPlan{}
-	e.fst = &vbFaultStore{BlockHeaderStore: e.bs, crash: e.crash}
-	e.ffst = &vbFaultFStore{FilterHeaderStore: e.fs, crash: e.crash}
+	e.rb = &vbRollbackFault{}
+	e.fst = &vbFaultStore{BlockHeaderStore: e.bs, crash: e.crash, rb: e.rb}
+	e.ffst = &vbFaultFStore{FilterHeaderStore: e.fs, crash: e.crash, rb: e.rb}
 	bm, err := newBlockManager(&blockManagerCfg{
 		ChainParams:      e.c.params,
 		BlockHeaders:     e.fst,
@@ -581,6 +636,7 @@ func (e *vbEnv) startManager() error {
 	e.bm = bm
 	e.cands = list.New()
 	e.peers = make([]*ServerPeer, e.c.u.NPeers)
+	e.gone = make([][]*ServerPeer, e.c.u.NPeers)
 	e.evStop = make(chan struct{})
 	e.evDone = make(chan struct{})
 	e.flush = make(chan chan struct{})
@@ -758,10 +814,21 @@ func (e *vbEnv) observe() vbObs {
 		}
 		o.Bl[k-1] = ids
 	}
-	sp := e.bm.SyncPeer()
-	for i, p := range e.peers {
-		if p != nil && p == sp {
-			o.Sync = i + 1
+	// the sync peer the client reports: 0 none, i = the peer now connected as
+	// peer i, 100+i = a peer object that was peer i and has left, vbG = unknown
+	if sp := e.bm.SyncPeer(); sp != nil {
+		o.Sync = vbG
+		for i, gs := range e.gone {
+			for _, p := range gs {
+				if p == sp {
+					o.Sync = 100 + i + 1
+				}
+			}
+		}
+		for i, p := range e.peers {
+			if p != nil && p == sp {
+				o.Sync = i + 1
+			}
 		}
 	}
 	if e.bm.BlockHeadersSynced() {
@@ -860,13 +927,19 @@ func (e *vbEnv) exec(a vbAct) (out vbAct) {
 		}
 		vbSetField(p, "startingHeight", int64(a.K))
 		vbSetField(p, "lastBlock", int64(a.K))
-		vbSetUintField(p, "services", uint64(wire.SFNodeNetwork|wire.SFNodeWitness|wire.SFNodeCF))
+		svc := wire.SFNodeNetwork | wire.SFNodeWitness | wire.SFNodeCF
+		if a.NF == 1 {
+			// not a full node: isSyncCandidate turns it down
+			svc = wire.SFNodeWitness | wire.SFNodeCF
+		}
+		vbSetUintField(p, "services", uint64(svc))
 		sp := &ServerPeer{Peer: p}
 		e.peers[a.P-1] = sp
 		e.bm.handleNewPeerMsg(e.cands, sp)
 	case "DonePeer":
 		sp := e.peers[a.P-1]
 		e.bm.handleDonePeerMsg(e.cands, sp)
+		e.gone[a.P-1] = append(e.gone[a.P-1], sp)
 		e.peers[a.P-1] = nil
 	case "Inv":
 		inv := wire.NewMsgInv()
@@ -880,10 +953,29 @@ func (e *vbEnv) exec(a vbAct) (out vbAct) {
 		}
 		e.fst.armed = a.K == 1
 		e.fst.sawRollback = false
-		if a.K >= 10 {
+		if a.K >= 10 && a.K < 20 {
 			e.crash.armed, e.crash.budget, e.crash.fired = true, a.K-10, false
 		}
-		defer func() { e.crash.armed = false; e.fst.armed = false }()
+		// 20+j / 30+j: the j-th rollback call of this message on the block /
+		// filter store fails
+		switch {
+		case a.K > 20 && a.K < 30:
+			e.rb.arm(a.K-20, 0)
+		case a.K > 30 && a.K < 40:
+			e.rb.arm(0, a.K-30)
+		default:
+			e.rb.arm(0, 0)
+		}
+		defer func() {
+			e.crash.armed = false
+			e.fst.armed = false
+			if a.K >= 20 && !e.rb.fired {
+				// the code never made the call that was to fail: no store
+				// call failed in this step, it is an ordinary one
+				out.K = 0
+			}
+			e.rb.arm(0, 0)
+		}()
 		e.bm.handleHeadersMsg(&headersMsg{headers: m, peer: e.peers[a.P-1]})
 	case "WriteCF":
 		ft, fth, err := e.fs.ChainTip()
@@ -1172,9 +1264,15 @@ func (w *vbWorker) runPath(p vbPathIn) (out vbPathOut) {
 			break
 		}
 		o := e.observe()
-		if a.Res == "crash" {
-			// only the stores survive a crash
-			o.Ev = [][]int{}
+		// "Rollback failed" panic of the reorganisation path on the injected
+		// store error: in the client this ends the process (the path goes on
+		// with Recover); the events delivered before the panic were delivered
+		panicDead := a.Res == "panic" && a.Op == "Headers" && a.K >= 20
+		if a.Res == "crash" || panicDead {
+			// only the stores survive the death of the process
+			if !panicDead {
+				o.Ev = [][]int{}
+			}
 			for k := range o.Bl {
 				o.Bl[k] = []int{vbERR}
 			}
